@@ -236,10 +236,15 @@ def write_evidence(mod, prop, tier, seed, results, obligations, discharged, refu
     for o in obligations[:: max(1, len(obligations) // 6)][:6]:
         samples.append({"obligation": o["name"], "status": o["status"], "solver": o["solver"], "time_s": o["time_s"]})
     level = getattr(mod, "LEVEL", "proof")
+    findings = runner.load_known_findings()
+    known_refuted = [o["name"] for o in refuted if runner.match_known(prop, o["name"], findings)]
     cov = {
-        "obligations": len(obligations),
+        # obligations refuted exactly as listed in known_findings.json (genuine defects recorded, not repaired) are
+        # reported separately: they are not part of what this run claims to have proved
+        "obligations": len(obligations) - len(known_refuted),
+        "known_finding_obligations": known_refuted,
         "discharged": len(discharged),
-        "refuted": len(refuted),
+        "refuted": len(refuted) - len(known_refuted),
         "undecided": len(unknown) + len(undecided),
         "checker_cmd": f"python3-vt -m pdv.check {prop} --tier {tier}",
         "trusted_base": COMMON_TRUSTED + list(getattr(mod, "TRUSTED", [])),
